@@ -387,7 +387,9 @@ func (o *C09) AfterBegin(w *World) {
 		// freshness: latest published set vs the current validator set, at most 5 % of normalised power apart
 		latest := t.Cur.SSets[ch][t.Cur.SSNonce[ch]]
 		if latest == nil {
-			if t.Cur.SSNonce[ch] > 0 && len(cur) > 0 {
+			// (not judged once Byzantine validators hold a quorum: a false "signer set N executed" with N above the
+			// hub's own latest nonce makes the pruning rule - nonce below the last observed one - remove the latest set)
+			if t.Cur.SSNonce[ch] > 0 && len(cur) > 0 && !w.Tainted {
 				// a set was published under this nonce and the hub no longer holds it: there is no latest published
 				// set for the current validators to be within 5 % of (relayers and signers are told "not found")
 				w.Fail("C09", "fresh-5pct", "latest-missing:"+ch, fmt.Sprintf("%s: after BeginBlock of height %d the latest published signer set (nonce %d) is not in the store any more, while %d bonded validators hold a key for the chain", ch, h, t.Cur.SSNonce[ch], len(cur)))
